@@ -242,6 +242,12 @@ BIG_FORMATS = [("\t", 0, False, "\n\n"), ("", "auto", True, ""), ("  ", 12, Fals
 
 def run_shard(shard, tier, acc):
     if shard[0] == "big":
+        if shard[1:] == (1, 0):
+            # "under the default parse and write stacks": a caller who derived a stack of their own from a list the factory
+            # functions handed out has not changed what the default stacks are (C20's family, judged here for round trips too)
+            from .c20 import check_factory_lists
+
+            check_factory_lists(acc)
         text, exp = bigdocs.document(shard[1], shard[2])
         acc.count("big_documents")
         check_doc(text, exp, BIG_FORMATS, acc)
@@ -254,6 +260,10 @@ def run_shard(shard, tier, acc):
 
 
 def replay(case, acc):
+    if "factory_list" in case:
+        from .c20 import check_factory_lists
+
+        return check_factory_lists(acc)
     fs = [tuple(f) for f in case.get("formats_written_before", [])] + [tuple(case["format"])]
     check_doc(case["text"], None, fs, acc)
 
